@@ -317,6 +317,14 @@ class Job:
         self.limits = limits
 
 
+class AnyU:
+    """Any as a member of a Union / Optional."""
+    def __init__(self, a: Optional[Any] = None, b: Union[int, Any] = 0
+                 ) -> None:
+        T(self, locals())
+        self.a, self.b = a, b
+
+
 class Holder:
     def __init__(self, s: Sub, ss: Optional[List[Sub]] = None,
                  u: Union[Sub, int, None] = None) -> None:
